@@ -450,11 +450,13 @@ class Collada(object):
                 if libnode is not None:
                     tried_loading = []
                     succeeded = False
-                    for node in libnode.findall(self.tag('node')):
+                    first = len(self.nodes)
+                    loaded = []
+                    for pos, node in enumerate(libnode.findall(self.tag('node'))):
                         try:
                             N = scene.loadNode(self, node, {})
                         except scene.DaeInstanceNotLoadedError as ex:
-                            tried_loading.append((node, ex))
+                            tried_loading.append((pos, node, ex))
                         except DaeError as ex:
                             self.handleError(ex)
                         except DaeRawLoadErrors as ex:
@@ -462,15 +464,16 @@ class Collada(object):
                         else:
                             if N is not None:
                                 self.nodes.append(N)
+                                loaded.append((pos, N))
                                 succeeded = True
                     while len(tried_loading) > 0 and succeeded:
                         succeeded = False
                         next_tried = []
-                        for node, ex in tried_loading:
+                        for pos, node, ex in tried_loading:
                             try:
                                 N = scene.loadNode(self, node, {})
                             except scene.DaeInstanceNotLoadedError as ex:
-                                next_tried.append((node, ex))
+                                next_tried.append((pos, node, ex))
                             except DaeError as ex:
                                 self.handleError(ex)
                             except DaeRawLoadErrors as ex:
@@ -478,9 +481,14 @@ class Collada(object):
                             else:
                                 if N is not None:
                                     self.nodes.append(N)
+                                    loaded.append((pos, N))
                                     succeeded = True
                         tried_loading = next_tried
-                    for node, ex in tried_loading:
+                    ordered = sorted(loaded, key=lambda pn: pn[0])
+                    if ordered != loaded:
+                        # nodes loaded in a retry pass keep their place in the document
+                        self.nodes = list(self.nodes)[:first] + [N for pos, N in ordered]
+                    for pos, node, ex in tried_loading:
                         # the node instantiates a node that never loaded
                         # (undefined, or part of a cycle of instance_nodes)
                         try:
